@@ -134,3 +134,10 @@ Print Assumptions C04_source_respond_order.
 Theorem C04_source_fidget_guard : ShapeLib.fidget_guard = true.
 Proof. exact PSeq.fidget_guard_ok. Qed.
 Print Assumptions C04_source_fidget_guard.
+
+(* the life time of a fid in the source: FidNew marks it as being created, retain links it unless the connection is
+   closed, unlink clears the link before its DecRef, DecRef marks it dead at 0 and calls FidDestroy after the delete,
+   Conn.close sets closed and unlinks what the table holds - "told of the destruction of every fid it was shown exactly once" *)
+Theorem C04_source_fid_lifetime : ShapeLib.fid_lifetime = true.
+Proof. exact PSeq.fid_lifetime_ok. Qed.
+Print Assumptions C04_source_fid_lifetime.
